@@ -623,10 +623,10 @@ func builtinArrayFilter(call FunctionCall) Value {
 func builtinArrayReduce(call FunctionCall) Value {
 	thisObject := call.thisObject()
 	this := objectValue(thisObject)
+	length := int64(toUint32(thisObject.get(propertyLength)))
 	if iterator := call.Argument(0); iterator.isCallable() {
 		initial := len(call.ArgumentList) > 1
 		start := call.Argument(1)
-		length := int64(toUint32(thisObject.get(propertyLength)))
 		index := int64(0)
 		if length > 0 || initial {
 			var accumulator Value
